@@ -185,6 +185,12 @@ func C19Case(r *Runner, base string, tape *sim.Tape) *Outcome {
 	}
 	ex := c.Inv.Expect(c.Tree)
 	out.stat("shape_"+c.Shape, 1)
+	for _, e := range c.Tree.Entries {
+		if e.Kind == KFile && strings.Count(e.Path, "/") > 32 {
+			out.stat("scenarios_with_file_below_more_than_32_directories", 1)
+			break
+		}
+	}
 	if c.Inv.Prepopulated > 0 {
 		out.stat("scenarios_with_prepopulated_destinations", 1)
 	}
